@@ -257,14 +257,23 @@ def check_inputs(spec, stats=None):
         mid = snapshot_state(ck)
         r2 = run_min(prob, c2, checkpoint=ck, x0=np.array(ck.x, copy=True), scaler=scaler)
         after = snapshot_state(ck)
-        if r1.exc is not None:
-            raise Violation(f"inputs-accepted[checkpoint{',readonly' if ro else ''}]", f"restart raised {type(r1.exc).__name__}: {r1.exc}")
         d = states_equal(before, mid, fields=FIELDS) or states_equal(before, after, fields=FIELDS)
         require(d is None, "inputs-untouched[checkpoint]", f"checkpoint field {d!r} was modified by the restart (scaler={scaler})")
-        if r2.exc is not None:
-            raise Violation("restart-twice-same-result", f"second restart raised {type(r2.exc).__name__}: {r2.exc}")
-        d = states_equal(r1.res, r2.res, fields=FIELDS)
-        require(d is None, "restart-twice-same-result", f"two restarts from the same checkpoint object differ in {d!r}")
+        scaler_involved = scaler is not None or "scaler" in rspec
+        numeric = lambda e: isinstance(e, (np.linalg.LinAlgError, FloatingPointError, ZeroDivisionError)) or (isinstance(e, ValueError) and "NaN" in str(e).replace("infs or NaNs", "NaN"))
+        if r1.exc is not None and scaler_involved and numeric(r1.exc):
+            # a checkpoint does not record the scaling factor (R12): mixing a scaled checkpoint with an unscaled
+            # continuation (or scaling it twice) hands the solver inconsistent curvature pairs, and a factorisation
+            # may break down.  Only the immutability of the checkpoint is judged in that combination.
+            if stats is not None:
+                stats.bump("restart-with-scaler-mismatch-broke-down(not judged)")
+        else:
+            if r1.exc is not None:
+                raise Violation(f"inputs-accepted[checkpoint{',readonly' if ro else ''}]", f"restart raised {type(r1.exc).__name__}: {r1.exc}")
+            if r2.exc is not None:
+                raise Violation("restart-twice-same-result", f"second restart raised {type(r2.exc).__name__}: {r2.exc}")
+            d = states_equal(r1.res, r2.res, fields=FIELDS)
+            require(d is None, "restart-twice-same-result", f"two restarts from the same checkpoint object differ in {d!r}")
         ck_used = True
         label += "+ckpt" + ("-ro" if ro else "") + ("-scaler" if scaler else "")
     if stats is not None:
